@@ -168,7 +168,7 @@ def scene_stage(ctx):
              "rays=%d" % (40 if quick else 60), "cams=%d" % (4 if quick else 12), "shadows=%d" % (60 if quick else 600),
              "seed=%d" % ctx.seed])
     stats = json.load(open(spath))
-    rej, decided = judge_scene(ctx, "scene", rpath, stats["records"], {"nearest", "lit", "frame", "caster", "uncaster"})
+    rej, decided = judge_scene(ctx, "scene", rpath, stats["records"], {"nearest", "lit", "lights", "frame", "caster", "uncaster"})
     if decided < 100:
         raise Infra("only %d rays were decided by the scene oracle" % decided)
     ctx.counts["distinct_nontrivial"] += decided
